@@ -16,6 +16,11 @@ fn dirs() -> (String, String, String) {
     let d2 = format!("{root}/d2");
     let _ = std::fs::create_dir_all(&d1);
     let _ = std::fs::create_dir_all(&d2);
+    // a symbolic link that points nowhere: it names a non-existent directory
+    let dangling = format!("{root}/dangling");
+    if std::fs::symlink_metadata(&dangling).is_err() {
+        let _ = std::os::unix::fs::symlink(format!("{root}/nowhere"), &dangling);
+    }
     // relative directory names are resolved against the working directory
     let _ = std::env::set_current_dir(root);
     (d1, d2, format!("{root}/missing"))
@@ -40,6 +45,7 @@ fn server_units() -> Vec<Vec<String>> {
         s(&["-i"]), s(&["-p"]), s(&["-d"]), s(&["-rd"]), s(&["-sd"]), s(&["--duplicate-packets"]),
         // values that coincide with a default: the working directory spelled out, an IPv4-mapped IPv6 address
         s(&["-rd", &cwd]), s(&["-sd", &cwd]), s(&["-i", "::ffff:127.0.0.1"]),
+        s(&["-d", "/dev/shm/verif-c17/dangling"]), s(&["-rd", "/dev/shm/verif-c17/dangling"]), s(&["-sd", "dangling"]),
     ]
 }
 
@@ -56,6 +62,7 @@ fn client_units() -> Vec<Vec<String>> {
         s(&["-rd", &dm]), s(&["-b", "x"]), s(&["-b", "-1"]), s(&["-w", "65536"]), s(&["-w", "x"]), s(&["-t", "x"]), s(&["-p", "65536"]), s(&["-i", "bad"]),
         s(&["-i"]), s(&["-p"]), s(&["-b"]), s(&["-w"]), s(&["-t"]), s(&["-rd"]),
         s(&["-i", "::ffff:127.0.0.1"]), s(&["--ip-address", "::ffff:7f00:1"]), s(&["-rd", &cwd]),
+        s(&["-rd", "/dev/shm/verif-c17/dangling"]), s(&["--receive-directory", "dangling"]),
     ]
 }
 
